@@ -4,6 +4,7 @@ import (
 	"fmt"
 	"sort"
 	"strings"
+	"unicode"
 
 	"verif/harness/gen"
 	"verif/harness/render"
@@ -158,6 +159,30 @@ func dotName(n string) string {
 	return n
 }
 
+// c18Printable replaces white-space and control-character literals by printable
+// ones: the listing and the diagram are texts in which blanks and line breaks
+// separate symbols, so such a literal cannot be told from the layout around it
+// (a limit of this oracle, not a statement about yaccgo).
+func c18Printable(g *spec.Grammar) {
+	used := map[int]bool{}
+	for _, t := range g.Tokens {
+		if t.Name == "" {
+			used[t.Lit] = true
+		}
+	}
+	next := 0x2460
+	for i := range g.Tokens {
+		t := &g.Tokens[i]
+		if t.Name == "" && (t.Lit <= 32 || unicode.IsSpace(rune(t.Lit)) || unicode.IsControl(rune(t.Lit))) {
+			for used[next] {
+				next++
+			}
+			t.Lit = next
+			used[next] = true
+		}
+	}
+}
+
 func (p c18) Run(seed int64, tier string, idx int) (o Outcome) {
 	if reg := p.regularCases(tier); idx >= reg {
 		return c18CLIRun(seed, idx-reg)
@@ -169,6 +194,7 @@ func (p c18) Run(seed int64, tier string, idx int) (o Outcome) {
 	} else {
 		g = pickGrammar(r, idx, true, stdCfg)
 	}
+	c18Printable(g)
 	g.NoAction = true
 	text := render.Render(g, plainParts, render.Options{})
 	o = Outcome{Status: "held", Replay: map[string]interface{}{"grammar": text}}
@@ -285,18 +311,21 @@ func (p c18) Run(seed int64, tier string, idx int) (o Outcome) {
 		}
 		label := nd.Attrs["label"]
 		label = strings.TrimSuffix(strings.TrimPrefix(label, "\""), "\"")
+		if dotIndex(label, '"') >= 0 {
+			return fail("node state_%d: the label contains an unescaped double quote (the DOT string ends there): %q", i, label)
+		}
 		head := fmt.Sprintf("<f0> state %d|{", i)
 		if !strings.HasPrefix(label, head) {
 			return fail("node state_%d has label %q", i, label)
 		}
 		rest := label[len(head):]
-		end := strings.Index(rest, "}")
+		end := dotIndex(rest, '}')
 		if end < 0 {
 			return fail("node state_%d: unbalanced label %q", i, label)
 		}
 		itemsPart, tail := rest[:end], rest[end+1:]
 		var gotItems []string
-		for _, s := range strings.Split(itemsPart, "|") {
+		for _, s := range dotSplit(itemsPart, '|') {
 			k := strings.Index(s, "-\\>")
 			if k < 0 {
 				return fail("node state_%d: item %q without arrow", i, s)
@@ -308,7 +337,7 @@ func (p c18) Run(seed int64, tier string, idx int) (o Outcome) {
 				continue
 			}
 			body = strings.ReplaceAll(body, "•", " • ")
-			body = strings.ReplaceAll(strings.ReplaceAll(body, "\\<", "<"), "\\>", ">")
+			body = dotUnescape(body)
 			dot := -1
 			syms := []string{}
 			for _, w := range strings.Fields(body) {
@@ -358,8 +387,8 @@ func (p c18) Run(seed int64, tier string, idx int) (o Outcome) {
 			if !strings.HasPrefix(tail, "|{") || !strings.HasSuffix(tail, "}") {
 				return fail("node state_%d: unexpected label tail %q", i, tail)
 			}
-			for _, s := range strings.Split(tail[2:len(tail)-1], "|") {
-				s = strings.ReplaceAll(strings.ReplaceAll(s, "\\<", "<"), "\\>", ">")
+			for _, s := range dotSplit(tail[2:len(tail)-1], '|') {
+				s = dotUnescape(s)
 				k := strings.LastIndex(s, ": reduce rule at ")
 				if k < 0 {
 					return fail("node state_%d: bad annotation %q", i, s)
@@ -394,7 +423,7 @@ func (p c18) Run(seed int64, tier string, idx int) (o Outcome) {
 	for _, e := range gr.Edges.Edges {
 		l := e.Attrs["label"]
 		l = strings.TrimSuffix(strings.TrimPrefix(l, "\""), "\"")
-		l = strings.TrimSpace(strings.ReplaceAll(strings.ReplaceAll(l, "\\<", "<"), "\\>", ">"))
+		l = strings.TrimSpace(dotUnescape(l))
 		gotEdges[fmt.Sprintf("%s->%s:%s", e.Src, e.Dst, l)]++
 	}
 	for k, c := range wantEdges {
